@@ -116,11 +116,11 @@ func checkStress(c Case) vrep.Result {
 	go func() { issued.Wait(); close(returned) }()
 	select {
 	case <-returned:
-	case <-time.After(30 * time.Second):
+	case <-time.After(60 * time.Second):
 		close(stop)
-		return vrep.Result{Err: fmt.Errorf("%d Update calls had not returned 30 s after the last key: the interface is wedged", atomic.LoadInt64(&pending))}
+		return vrep.Result{Err: fmt.Errorf("%d Update calls had not returned 60 s after the last key: the interface is wedged", atomic.LoadInt64(&pending))}
 	}
-	_, serr := d.Settle(30 * time.Second)
+	_, serr := d.Settle(60 * time.Second)
 	close(stop)
 	pollers.Wait()
 	if serr != nil {
